@@ -58,6 +58,9 @@ impl Obs {
     }
 }
 
+/// Set in `--child-item` processes: file that always holds the input being decoded.
+pub static WRITE_AHEAD: std::sync::OnceLock<std::path::PathBuf> = std::sync::OnceLock::new();
+
 pub struct Decode {
     pub obs: Obs,
     /// largest single allocation request during the call
@@ -66,6 +69,10 @@ pub struct Decode {
 
 /// One guarded `Unpackable::unpack` of the subject type.
 pub fn decode(subj: &Subject, buf: &[u8]) -> Decode {
+    if let Some(p) = WRITE_AHEAD.get() {
+        // single-item child: name the input before touching it, so that an abort is attributable
+        let _ = std::fs::write(p, format!("{} {}", subj.schema.name, vcore::hex(buf)));
+    }
     alloc_reset();
     let r = vcore::catch(|| (subj.unpack)(buf));
     let peak = alloc_peak();
